@@ -1,16 +1,30 @@
 /-
-  Oracle commands for C19 (chatPrompt):
-    chat <variant: bit0 = F4 repaired, bit1 = legacy-loop (F4b) repaired> <mllama 0|1> <proj 0|1|2> <limit> <style> <tokmode>
+  Oracle commands for C19 (chatPrompt + template.Execute + the runner's tag resolution):
+
+    chat <variant> <mllama 0|1> <proj 0|1|2> <limit> <tokmode> <srchex> <tmpl>
          <L> {<role s|u|a|t|o> <contenthex> <nimgs> {<src> <ok 0|1>}*}*
          <ncosts> <cost>*
-      cost[i] (0 ≤ i < L-1) = tokens of the REAL template+tokenizer on system(i) ++ msgs[i:]
-      (what the loop would measure at iteration i); the model's loop uses this vector.
-      style 0/1/2/3 = the harness templates, which the oracle also renders itself
-      (prompt string, and a cross-check of the cost vector); style ≥ 4 = a template the oracle
-      does not know (prompt reported as `?`).
-      -> panic:empty | err:too-many-images | err:preprocess
+      variant = f4fixed + 2*lmode + 8*efix   (variant of the tree under test, probed by the driver)
+      tmpl    = X                      (template outside the modelled subset: opaque)
+              | T <nodes>              (the parse tree the REAL template.Parse produced)
+        nodes = <n> node*
+        node  = T <hex> | A expr | I expr nodes <hasElse 0|1> nodes | R expr nodes <hasElse> nodes
+        expr  = f <Field> | v <Field> | s <hex> | eq e e | ne e e | not e | and e e | or e e
+      cost[i] (0 ≤ i < L-1) = tokens of the REAL template+tokenizer on system(i) ++ msgs[i:],
+                or E (Execute returned an error) / P (Execute panicked)
+      The generic model runs on the real cost vector; for a non-opaque template the model also
+      executes the template itself (prompt string, cross-check of the cost vector, and of the
+      generic run).
+      -> panic:empty | err:too-many-images | err:preprocess | err:template | panic:template-cut
        | ok q=<tokenizer calls> imgs=<id:src:pre,…|-> msgs=<hex;…> prompt=<hex|?> costs=<ok|BAD@i|?>
          (msgs = contents of ALL messages after the call: chatPrompt rewrites msgs[n:] in place)
+
+    resolve <nimgs> {<id>}* <ntags> {<tag>}*
+      runner `inputs`: for each tag the position of the first image with that ID
+      -> ok <pos,…|-> | err:invalid-image-index
+
+    handler <sysHex> <nModel> {msg}* <nReq> {msg}*        (msg as above)
+      ChatHandler's conversation: -> <role>:<contenthex>;…
 -/
 import OllamaVerif.Model.Prompt
 import Oracle.Util
@@ -38,48 +52,167 @@ def pMsg : TP Msg := do
   let imgs ← listOf pImg
   pure ⟨r, splitImg c, imgs⟩
 
+def pFld : TP Fld := do
+  let t ← tok
+  pure (match t with
+    | "System" => .system
+    | "Prompt" => .prompt
+    | "Response" => .response
+    | "Messages" => .messages
+    | "Role" => .role
+    | "Content" => .content
+    | _ => .other)
+
+/-- recursive-descent parsers with fuel (the number of tokens bounds the depth) -/
+def pExpr : Nat → TP Expr
+  | 0 => failure
+  | fuel+1 => do
+    let t ← tok
+    match t with
+    | "f" => return .field (← pFld)
+    | "v" => return .root (← pFld)
+    | "s" => return .str (← hex)
+    | "eq" => do let a ← pExpr fuel; let b ← pExpr fuel; return .eq a b
+    | "ne" => do let a ← pExpr fuel; let b ← pExpr fuel; return .ne a b
+    | "not" => do let a ← pExpr fuel; return .not a
+    | "and" => do let a ← pExpr fuel; let b ← pExpr fuel; return .and a b
+    | "or" => do let a ← pExpr fuel; let b ← pExpr fuel; return .or a b
+    | _ => failure
+
+mutual
+def pNode : Nat → TP Node
+  | 0 => failure
+  | fuel+1 => do
+    let t ← tok
+    match t with
+    | "T" => return .text (← hex)
+    | "A" => return .action (← pExpr fuel)
+    | "I" => do
+      let c ← pExpr fuel
+      let th ← pNodes fuel
+      let he ← nat
+      let el ← pNodes fuel
+      return .ite c th (he != 0) el
+    | "R" => do
+      let c ← pExpr fuel
+      let th ← pNodes fuel
+      let he ← nat
+      let el ← pNodes fuel
+      return .range c th (he != 0) el
+    | _ => failure
+def pNodes : Nat → TP (List Node)
+  | 0 => failure
+  | fuel+1 => do
+    let n ← nat
+    pNodeRep fuel n
+def pNodeRep : Nat → Nat → TP (List Node)
+  | 0, _ => failure
+  | _, 0 => pure []
+  | fuel+1, k+1 => do
+    let a ← pNode fuel
+    let as ← pNodeRep fuel k
+    pure (a :: as)
+end
+
+def pTmpl (fuel : Nat) : TP (Option (List Node)) := do
+  let t ← tok
+  match t with
+  | "X" => pure none
+  | "T" => return some (← pNodes fuel)
+  | _ => failure
+
+/-- a cost token: a number, `E` (error) or `P` (panic) -/
+inductive CostTok | n (k : Nat) | e | p
+  deriving DecidableEq
+
+def pCost : TP CostTok := do
+  let t ← tok
+  match t with
+  | "E" => pure .e
+  | "P" => pure .p
+  | _ => match t.toNat? with
+    | some k => pure (.n k)
+    | none => failure
+
 def showImgs (l : List ImgOut) : String :=
   if l.isEmpty then "-" else
     joinWith "," (l.map fun o => s!"{o.id}:{o.src}:{if o.pre then 1 else 0}")
 
-def firstBad (given mine : List Nat) (i : Nat) : Option Nat :=
+def firstBad (given mine : List CostTok) (i : Nat) : Option Nat :=
   match given, mine with
   | [], [] => none
   | g :: gs, m :: ms => if g = m then firstBad gs ms (i+1) else some i
   | _, _ => some i
 
+def showErr : XErr → String
+  | .exec => "err:template"
+  | .panicCut => "panic:template-cut"
+  | .unsupported => "unsupported"
+
+def roleTok : Role → String
+  | .system => "s" | .user => "u" | .assistant => "a" | .tool => "t" | .other => "o"
+
 def handle (toks : List String) : Option String :=
   match toks with
   | "chat" :: rest =>
     runTP (do
-      let fixed ← nat
+      let variant ← nat
       let mllama ← nat
       let proj ← nat
       let limit ← int
-      let style ← nat
       let mode ← nat
+      let _src ← tok      -- template source (for replay); the model executes the parsed tree
+      let tmpl ← pTmpl rest.length
       let msgs ← listOf pMsg
-      let costs ← listOf nat
-      let cfg : Cfg := ⟨fixed % 2 != 0, mllama != 0, proj, limit⟩
-      let cost : Nat → Nat := fun i => costs.getD i 0
-      let rend : List Msg → Bytes := fun l => render (fixed / 2 % 2 != 0) style (l.map toRMsg)
-      pure (match chatPrompt cfg cost msgs with
+      let costs ← listOf pCost
+      let cfg : Cfg := ⟨variant % 2 != 0, mllama != 0, proj, limit⟩
+      let tv : TVar := ⟨variant / 2 % 4, variant / 8 % 2 != 0⟩
+      let cost : Nat → Nat := fun i => match costs[i]? with | some (.n k) => k | _ => 0
+      let bad : Nat → Bool := fun i => match costs[i]? with | some .e => true | some .p => true | _ => false
+      let generic := chatPrompt cfg cost bad msgs
+      pure (match generic with
         | .panicEmpty => "panic:empty"
         | .errTooMany => "err:too-many-images"
         | .errPreprocess => "err:preprocess"
+        | .execFail i => (match costs[i]? with | some .p => "panic:template-cut" | _ => "err:template")
         | .ok q n sys ret imgs =>
           let all := msgs.take n ++ ret
           let ms := joinWith ";" (all.map fun m => hexOrDash (renderPieces m.content))
-          let prompt := if style ≤ 3 then hexOrDash (rend (sys ++ ret)) else "?"
-          let chk :=
-            if style ≤ 3 then
-              let mine := (List.range (msgs.length - 1)).map
-                (costOfRender (fun l => tokenCount mode (rend l)) msgs)
-              match firstBad costs mine 0 with
+          match tmpl with
+          | none => s!"ok q={q} imgs={showImgs imgs} msgs={ms} prompt=? costs=?"
+          | some t =>
+            let mine := (List.range (msgs.length - 1)).map fun i =>
+              match renderAt tv t msgs i with
+              | .ok b => CostTok.n (tokenCount mode b)
+              | .err .panicCut => CostTok.p
+              | .err _ => CostTok.e
+            let chk := match firstBad costs mine 0 with
               | none => "ok"
               | some i => s!"BAD@{i}"
-            else "?"
-          s!"ok q={q} imgs={showImgs imgs} msgs={ms} prompt={prompt} costs={chk}")) rest
+            match chatPromptT cfg tv t mode msgs with
+            | .ok q' n' _ _ imgs' p =>
+              if q' = q ∧ n' = n ∧ imgs' = imgs then
+                s!"ok q={q} imgs={showImgs imgs} msgs={ms} prompt={hexOrDash p} costs={chk}"
+              else s!"ok q={q} imgs={showImgs imgs} msgs={ms} prompt=TEMPLATE-MODEL-DISAGREES costs={chk}"
+            | .tmplErr e => showErr e
+            | _ => "template-model-disagrees")) rest
+  | "resolve" :: rest =>
+    runTP (do
+      let ids ← listOf nat
+      let tags ← listOf nat
+      let imgs : List ImgOut := ids.map fun i => ⟨i, 0, false⟩
+      pure (match resolveTags imgs tags with
+        | none => "err:invalid-image-index"
+        | some _ =>
+          let pos := tags.map fun k => (imgs.findIdx? (fun o => o.id = k)).getD 0
+          if pos.isEmpty then "ok -" else s!"ok {joinWith "," (pos.map toString)}")) rest
+  | "handler" :: rest =>
+    runTP (do
+      let sys ← hex
+      let mm ← listOf pMsg
+      let req ← listOf pMsg
+      let out := handlerMsgs mm sys req
+      pure (joinWith ";" (out.map fun m => s!"{roleTok m.role}:{hexOrDash (renderPieces m.content)}"))) rest
   | _ => none
 
 end Oracle.C19
